@@ -28,6 +28,10 @@ pub struct ChaosCase {
     /// the builder's type and copy the fields) instead of after
     #[serde(default)]
     pub settings_first: bool,
+    /// max_latency() is called before the final min_latency() (and after an earlier, different
+    /// min_latency value): the last value of each bound is the one that counts
+    #[serde(default)]
+    pub max_first: bool,
 }
 
 fn rate() -> BoxedStrategy<u16> {
@@ -59,9 +63,9 @@ fn case_strategy(tier: Tier) -> BoxedStrategy<ChaosCase> {
             (prop_oneof![2 => Just(0u8), 1 => 1u8..=5], prop_oneof![2 => Just(0u8), 1 => 0u8..=8], prop::bool::weighted(0.8)),
             1..=max_reqs,
         ),
-        (prop_oneof![1 => Just(0u64), 1 => Just(u64::MAX), 2 => any::<u64>()], any::<bool>()),
+        (prop_oneof![1 => Just(0u64), 1 => Just(u64::MAX), 2 => any::<u64>()], any::<bool>(), any::<bool>()),
     )
-        .prop_map(|(seed, error_rate, latency_rate, min_ms, max_ms, mut requests, (clone_mask, settings_first))| {
+        .prop_map(|(seed, error_rate, latency_rate, min_ms, max_ms, mut requests, (clone_mask, settings_first, max_first))| {
             if min_ms.max(max_ms) >= 1000 {
                 // seconds of injected latency: keep the history short
                 requests.truncate(4);
@@ -75,6 +79,7 @@ fn case_strategy(tier: Tier) -> BoxedStrategy<ChaosCase> {
             requests,
             clone_mask,
             settings_first,
+            max_first,
             }
         })
         .boxed()
@@ -124,8 +129,9 @@ async fn trace(case: &ChaosCase, which: u8) -> (Vec<Obs>, Vec<String>) {
         ChaosLayer::builder()
             .name("vcheck")
             .latency_rate(case.latency_rate as f64 / 1000.0)
-            .min_latency(Duration::from_millis(case.min_ms))
+            .min_latency(Duration::from_millis(if case.max_first { 7 } else { case.min_ms }))
             .max_latency(Duration::from_millis(case.max_ms))
+            .min_latency(Duration::from_millis(case.min_ms))
             .seed(case.seed)
             .on_latency_injected(announce)
             .error_rate(case.error_rate as f64 / 1000.0)
@@ -137,8 +143,9 @@ async fn trace(case: &ChaosCase, which: u8) -> (Vec<Obs>, Vec<String>) {
             .error_rate(case.error_rate as f64 / 1000.0)
             .error_fn(err_fn)
             .latency_rate(case.latency_rate as f64 / 1000.0)
-            .min_latency(Duration::from_millis(case.min_ms))
+            .min_latency(Duration::from_millis(if case.max_first { 7 } else { case.min_ms }))
             .max_latency(Duration::from_millis(case.max_ms))
+            .min_latency(Duration::from_millis(case.min_ms))
             .seed(case.seed)
             .on_latency_injected(announce)
             .build()
